@@ -145,7 +145,7 @@ PROPS = {
         not_yet_proved=[],
     ),
     "C11": dict(
-        extra_modules=["CstModel.Props.Gen"],   # gen_*: bodies transcribed from the source evaluate to the model (tools/rs2lean.py)
+        extra_modules=["CstModel.Props.GenToken", "CstModel.Props.Gen"],   # gen_*: bodies transcribed from the source evaluate to the model (tools/rs2lean.py)
         tags=["C11", "C01"],   # "resolving a token yields the text it was built from": the finished tree is compared with the events' tree in the same runs
         runs=runs([("tokens", "release"), ("tokens", "debug")],
                   [("tokens", "release"), ("tokens", "debug"), ("tokens", "lasso"), ("tokens", "lasso-debug")]),
@@ -243,6 +243,7 @@ PROPS = {
         not_yet_proved=[],
     ),
     "C15": dict(
+        extra_modules=["CstModel.Props.GenToken"],   # Gen.gt_* / rt_text: the token layer as transcribed
         runs=runs([("greeneq", "release")],
                   [("greeneq", "release"), ("greeneq", "lasso"), ("greeneq", "debug")]),
         rule="cases = random tree T built four ways over one interner (builder, builder again through the shared cache, builder through a fresh cache "
